@@ -215,6 +215,59 @@ def function_roundtrip(idx: int, i0: int, i1: int, i2: int, s: str, bs: bytes, f
     return fin(_strip_floats(_var_ref(back.data)) == _strip_floats(want) and list(back.encode()) == wire)
 
 
+def list_valued_items(k: int, a: int, t: str) -> bool:
+    """
+    pre: 0 <= k <= 2
+    pre: 0 <= a < 255
+    pre: len(t) == 1 and 32 <= ord(t[0]) < 127
+    post: _
+    """
+    # data items that may hold a LIST value (SV, V: "any value"): nested lists inside the value, two levels deep
+    nested = [a, [a + 1, t], []]
+    if k == 0:
+        cls, value, path = FN.SecsS01F04, [nested, t], lambda g: g[0]
+    elif k == 1:
+        cls, value = FN.SecsS06F11, {"DATAID": 1, "CEID": 2, "RPT": [{"RPTID": 3, "V": [nested, a]}]}
+        path = lambda g: g["RPT"][0]["V"][0]
+    else:
+        cls, value = FN.SecsS06F16, {"DATAID": 1, "CEID": 2, "RPT": [{"RPTID": 3, "V": [nested]}]}
+        path = lambda g: g["RPT"][0]["V"][0]
+    try:
+        obj = cls(value)
+        enc = obj.encode()
+    except Exception:
+        return False
+    want = refe5.encode_list([refe5.encode_ints(refe5.U1, [a]),
+                              refe5.encode_list([refe5.encode_ints(refe5.U1, [a + 1]), refe5.encode_bytes_item(refe5.A, [ord(t)])]),
+                              refe5.encode_list([])])
+    # the nested value appears in the body exactly as E5 encodes it
+    raw = list(enc)
+    found = any(raw[i:i + len(want)] == want for i in range(len(raw) - len(want) + 1))
+    if not found or path(obj.get()) != nested:
+        return False
+    # decode side: the same body with the leaf bytes as they are, found by stream/function only
+    try:
+        back = StreamsFunctions().decode(Msg(cls._stream, cls._function, False, 1, bytes(raw)))
+    except Exception:
+        return False
+    return fin(type(back) is cls and path(back.get()) == nested)
+
+
+def update_isolated(idx: int) -> bool:
+    """
+    pre: 0 <= idx < 134
+    post: _
+    """
+    # customising one StreamsFunctions container (update with a vendor variant) must not change what other containers find
+    cls = pick(ALL, idx)
+    vendor = type("Vendor" + cls.__name__, (cls,), {"_data_format": None})
+    a = StreamsFunctions()
+    a.update(vendor)
+    b = StreamsFunctions()
+    return fin(a.function(cls._stream, cls._function) is vendor and b.function(cls._stream, cls._function) is cls
+               and StreamsFunctions().function(cls._stream, cls._function) is cls)
+
+
 def catalogue_tables():
     """class attributes vs functions.yaml vs partner functions as z3 facts over a symbolic (stream, function) index"""
     import yaml
@@ -306,7 +359,7 @@ def _limited_numeric(cls):
     return t.data is not None and walk(t.data)
 
 
-_HEAVY = (32, 46, 131, 75, 78)        # deeply nested / many-member functions: split further by list length and length-limit flag
+_HEAVY = (32, 46, 131, 75, 78, 69, 110, 113, 133)        # deeply nested / many-member functions: split further by list length and length-limit flag
 
 
 def _quick_parts():
@@ -354,9 +407,16 @@ OBLIGATIONS = [
                 "must denote the value, get() returns it unchanged; the same structure with fresh symbolic payload bytes is decoded "
                 "through StreamsFunctions().decode (class found by S/F only) and must re-encode to the same bytes with the reference "
                 "values; quick: 40 GEM functions + all functions with length-limited numeric items + 20 rotating with VERIF_SEED, thorough: all 134",
-         outside="lists longer than 2 (longer than 1 for S2F30, S2F48, S6F11, S6F16, S14F2 and the S12 map functions whose nested open lists multiply: 2 elements per "
+         outside="lists longer than 2 (longer than 1 for S2F30, S2F48, S6F1, S6F11, S6F16, S12F1, S12F4, S14F2, S14F4 and the S12 map functions whose nested open lists multiply: 2 elements per "
                  "level did not finish in 900 s), alternative types other than the first of each data item (their codecs are C01/C02), float leaves "
                  "(fixed 1.5)"),
+    dict(name="list_valued_items", fn="list_valued_items", timeout=300,
+         functions=["Dynamic/ANYVALUE with Array values inside S1F4, S6F11, S6F16"],
+         bounds="a value [a, [a+1, t], []] (symbolic U1 a, symbolic printable t) nested inside the list-valued items of 3 functions"),
+    dict(name="update_isolated", fn="update_isolated", timeout=300,
+         functions=["StreamsFunctions.__init__/update/function"],
+         bounds="every catalogued function replaced by a vendor variant in one container (symbolic index): other containers created "
+                "before or after still resolve the catalogue class (finite, all 134)"),
     dict(name="catalogue_tables", fn="catalogue_tables", kind="native", timeout=300,
          functions=["class attributes _to_host/_to_equipment/_has_reply/_is_reply_required/_is_multi_block", "secsgem/secs/functions.yaml",
                     "SecsStreamFunction.__init__ instance attributes", "StreamsFunctions.function"],
